@@ -55,6 +55,10 @@ func (c *Conversation) genDataMsgWithFlag(message []byte, flag byte, tlvs ...tlv
 	dataMessage.sign(keys.sendingMACKey, header, c.version)
 
 	c.updateMayRetransmitTo(noRetransmit)
+	if len(message) > 0 && !c.resend.retransmitting {
+		// only the most recent user message may be resent later, never the session's history
+		c.resend.clear()
+	}
 	c.lastMessage(message)
 
 	x := dataMessageExtra{keys.extraKey}
